@@ -129,12 +129,17 @@ def check_one(m):
     d = tp.scratch_copy()
     try:
         apply(m, d)
-        res = tp.run_checks(d, COVER)
+        env = dict(os.environ, DOSA_REPO=d, PYTHONDONTWRITEBYTECODE='1', DOSA_NO_EVIDENCE='1')
+        r = subprocess.run([os.path.join(V, 'check'), 'multi'], capture_output=True, text=True, env=env)
         hits = {}
-        for pp, (rc, out) in res.items():
+        out = r.stdout + r.stderr
+        rcs = {l.split()[1]: int(l.split('rc=')[1]) for l in out.splitlines() if l.startswith('[multi] ')}
+        for pp, rc in rcs.items():
             if rc != 0:
-                rules = sorted({l.split(' rule ')[1].split(' ')[0] for l in out.splitlines() if l.startswith('--- ') and ' rule ' in l})
-                hits[pp] = [rc, rules[:6] or [l[:160] for l in out.splitlines() if l.startswith('ANALYSIS-ERROR')][:1]]
+                rules = sorted({l.split(' rule ')[1].split(' ')[0] for l in out.splitlines() if l.startswith(f'--- {pp} rule ')})
+                hits[pp] = [rc, rules[:6] or [l[:160] for l in out.splitlines() if l.startswith(f'ANALYSIS-ERROR: {pp}')][:1]]
+        if not rcs:
+            hits['?'] = [2, [out[-300:]]]
         return m['id'], hits
     finally:
         shutil.rmtree(d, ignore_errors=True)
